@@ -11,6 +11,7 @@
 (*          want = the underlying bucket's answer to the same call,        *)
 (*          both [kind, n, sha, data, val, names (, msg)]:                 *)
 (*            kind  data | notfound | error | bool | attrs | names | panic *)
+(*                  | hang (no progress inside the read for 90 s)          *)
 (*            n     number of bytes read, sha a digest of them, data the   *)
 (*                  bytes themselves when n <= 32 (else <<>>)              *)
 (*            val   Exists answer / size@mtime of Attributes, as a string  *)
@@ -45,7 +46,7 @@ Judge(e) == IF e.ev # "op" THEN {}
 (* Model conformance (never a verdict): the sub-requests the algorithm-level model plans for     *)
 (* this GetRange, given the cached subranges before the call, against the GetRange calls that    *)
 (* reached the bucket.                                                                            *)
-Drift(e) == /\ e.ev = "op" /\ e.op = "getrange" /\ e.size >= 0 /\ e.got.kind # "panic"
+Drift(e) == /\ e.ev = "op" /\ e.op = "getrange" /\ e.size >= 0 /\ e.got.kind \notin {"panic", "hang"}
             /\ LET pred == IF e.off < 0 \/ e.len <= 0 THEN {<<e.off, e.len>>}
                            ELSE PlanReqs(Plan(e.size, e.S, e.M, e.off, e.len, Range(e.hit)), e.off, e.len)
                    obs == { <<e.breqs[i][1], e.breqs[i][2]>> : i \in DOMAIN e.breqs }
